@@ -190,6 +190,26 @@ def run_determinism(ctx, prop, tier, seed, binp, workdir):
     if tier == "quick":   # a deterministic sample of the paths keeps the quick tier short
         lines = open(paths).read().splitlines()
         open(paths, "w").write("\n".join(lines[::7]) + "\n")
+    # TLC-enumerated genesis states: many fresh chains initialised from the same genesis must agree
+    gcfg = "MC_Genesis.cfg" if tier == "quick" else "MC_Genesis_T.cfg"
+    goutp, grc, gscratch = ctx["run_tlc"]("MC_Genesis", gcfg, workdir, 1500, os.cpu_count() or 8)
+    gcases = os.path.join(workdir, "det_gcases.ndjson")
+    gtext, ng = ctx["split"](goutp, gcases)
+    shutil.rmtree(gscratch, ignore_errors=True)
+    if grc != 0 or "No error has been found" not in gtext or ng == 0:
+        raise ctx["Machinery"]("TLC did not verify MC_Genesis:\n" + gtext[-2000:])
+    multi, rest = [], []
+    for line in open(gcases):
+        try:
+            g = json.loads(json.loads(line)) if line.startswith('"') else json.loads(line)
+        except ValueError:
+            continue
+        g = g.get("g", {})
+        (multi if any(isinstance(v, list) and len(v) >= 2 for v in g.values()) else rest).append(line)
+    cap = 400 if tier == "quick" else 4000
+    pick = multi[::max(1, len(multi) // cap)] + rest[::max(1, len(rest) // (cap // 4))]
+    with open(paths, "a") as f:
+        f.write("".join(pick))
     text, rc = det_run(ctx, race, ["determinism", "-n", str(n), "-depth", str(depth), "-in", paths, "-out", obs], seed)
     violations = []
     if "DATA RACE" in text:
@@ -207,7 +227,8 @@ def run_determinism(ctx, prop, tier, seed, binp, workdir):
         for sig in v["fails"]:
             bysig.setdefault(sig, v["id"])
     for sig, rid in sorted(bysig.items()):
-        rp = write_replay(ctx, prop, seed, dict(special="det", signature=sig, first=rid, n=2, depth=depth, replicas=recs[rid]["replicas"], tier=tier))
+        rp = write_replay(ctx, prop, seed, dict(special="det", signature=sig, first=rid, n=2, depth=depth, replicas=recs[rid]["replicas"], tier=tier,
+                                                 **({"g": recs[rid]["g"]} if "g" in recs[rid] else {})))
         violations.append(dict(signature=sig, replay=rp))     # irreproducibility IS the violation: two recorded runs differ
     steps = sum(r["steps"] for r in recs.values())
     nrep = len(next(iter(recs.values()))["replicas"]) if recs else 0
